@@ -54,6 +54,8 @@ fn specs() -> Vec<Spec> {
         spec(&["<pad>", "<unk>", "<bos>", "<eos>", "<sep>", "<mask>", "<lang:de>", "<ä€>"], "<pad>", &["<lang:de>", "<bos>"], &["<sep>"]),
         // a configured token spelled like the filler tokens pad_to_multiple_of generates
         spec(&["<unk>", "<bos>", "<eos>", "<pad>", "<extra_token_0>"], "<pad>", &["<bos>", "<extra_token_0>"], &["<eos>"]),
+        // special tokens that are a single code point (not a regular token of any tokenizer kind)
+        spec(&["<pad>", "\u{fffd}", "<bos>", "\u{b6}"], "<pad>", &["<bos>", "\u{fffd}"], &["\u{b6}"]),
         // the minimum
         spec(&["<pad>"], "<pad>", &[], &[]),
         // duplicates and extra tokens, pad neither first nor last
@@ -237,12 +239,12 @@ fn unique(v: &[String]) -> Vec<String> {
 
 /// Domain predicate: the special spellings cannot be confused with regular tokens.
 fn in_domain(kind: &Kind, specials: &[String]) -> bool {
-    specials.iter().all(|s| {
-        s.chars().count() >= 2
-            && match kind {
-                Kind::Bpe { table, .. } => !table.iter().any(|e| e == s.as_bytes()),
-                _ => true,
-            }
+    // (a spelling of one character is still in the domain when it is no regular token: more than one
+    // byte for the byte and BPE tokenizers, outside ASCII for the character tokenizer)
+    specials.iter().all(|s| match kind {
+        Kind::Bpe { table, .. } => s.len() >= 2 && !table.iter().any(|e| e == s.as_bytes()),
+        Kind::Byte { .. } => s.len() >= 2,
+        _ => s.chars().count() >= 2 || !s.is_ascii(),
     })
 }
 
